@@ -177,8 +177,21 @@ func (p *Parser) parseWithRecoveryAt(tokens []token.Token, positions []TokenPosi
 	unterminatedEnd := -1
 
 	for p.currentPos < len(tokens) && !p.isType(models.TokenTypeEOF) {
-		// Skip semicolons between statements
+		// Skip semicolons between statements (an empty statement: an error in
+		// strict mode, like in Parse, ParseContext and ParseWithPositions)
 		if p.isType(models.TokenTypeSemicolon) {
+			if err := p.checkStrictEmptySemicolon(); err != nil {
+				loc := p.currentLocation()
+				errors = append(errors, &ParseError{
+					Msg:       err.Error(),
+					TokenIdx:  p.currentPos,
+					Line:      loc.Line,
+					Column:    loc.Column,
+					TokenType: p.currentToken.Type.String(),
+					Literal:   p.currentToken.Literal,
+					Cause:     err,
+				})
+			}
 			p.advance()
 			unterminatedEnd = -1
 			continue
